@@ -178,34 +178,33 @@ def unit_cases(unit):
 
 
 def hyp_examples(tier):
-    return 2000 if tier == "quick" else 60000
+    return 6000 if tier == "quick" else 300000
 
 
-@st.composite
-def _expr_cases(draw):
+_EXPR_SHAPES = [("", None, None), ("", None, "x"), ("", None, "y"), ("#", None, None), ("(", None, None), ("(", None, "y"),
+                ("(", "x", None), ("(", "s", "y"), ("[", None, None), ("[", None, "y"), ("", None, "s")]
+
+
+def _build_expr_case(rng):
     from a816.cpu.cpu_65c816 import snes_opcode_table
 
-    m = draw(st.sampled_from(sorted(k for k in snes_opcode_table if k not in isa.BRANCHES8)))
-    shape = draw(st.sampled_from([("", None, None), ("", None, "x"), ("", None, "y"), ("#", None, None), ("(", None, None), ("(", None, "y"),
-                                  ("(", "x", None), ("(", "s", "y"), ("[", None, None), ("[", None, "y"), ("", None, "s")]))
-    sfx = draw(st.sampled_from(SUFFIXES))
-    env = {"k_a": draw(st.sampled_from([0, 5, 0xFF, 0x100, 0x1234, 0x12345])), "lb_a": 0x008000}
-    raw = draw(gen.expr_trees(names=["k_a", "lb_a"], max_leaves=draw(st.sampled_from([2, 4, 8])), lit_max=1 << 24))
+    m = rng.choice(sorted(k for k in snes_opcode_table if k not in isa.BRANCHES8))
+    shape = rng.choice(_EXPR_SHAPES)
+    sfx = rng.choice(SUFFIXES)
+    env = {"k_a": rng.choice([0, 5, 0xFF, 0x100, 0x1234, 0x12345]), "lb_a": 0x008000}
+    raw = gen.r_expr(rng, names=["k_a", "lb_a"], max_leaves=rng.choice([2, 4, 8]), lit_max=1 << 24)
     tree, v = gen.repair(raw, env)
     if v < 0:
-        tree, v = ["bin", "-", ["lit", 0, "d"], tree], -v  # keep the value non-negative (inference is only defined there)
-        tree, v = gen.repair(tree, env)
+        tree, v = gen.repair(["bin", "-", ["lit", 0, "d"], tree], env)  # keep the value non-negative (inference is only defined there)
     if v >= 1 << 24:
-        tree = ["bin", "&", tree, ["lit", 0xFFFFFF, "x"]]
-        tree, v = gen.repair(tree, env)
-    if shape[0] in ("", "(") and tree[0] == "par":
-        tree = tree[1] if shape[0] == "" else tree
-    case = draw(st.sampled_from(CASES))
-    return {"t": "expr", "m": m, "shape": list(shape), "sfx": sfx, "tree": tree, "env": env, "case": case}
+        tree, v = gen.repair(["bin", "&", tree, ["lit", 0xFFFFFF, "x"]], env)
+    if shape[0] == "" and tree[0] == "par":
+        tree = tree[1]
+    return {"t": "expr", "m": m, "shape": list(shape), "sfx": sfx, "tree": tree, "env": env, "case": rng.choice(CASES)}
 
 
 def strategy(tier):
-    return _expr_cases()
+    return gen.seeded(_build_expr_case)
 
 
 def run_case(case) -> Outcome:
